@@ -466,4 +466,42 @@ where
     value.serialize(Serializer::new(&mut ToFmtWrite(writer)))
 }
 //@end
+// ---- the bridge from the event writer to the serde serializer (src/writer.rs) ----
+/// src/errors.rs: `impl From<io::Error> for SeError { Self::Io(Arc::new(e)) }` -- the transcription of SeError leaves the Io variant out
+impl vstd::std_specs::convert::FromSpecImpl<io::Error> for SeError {
+    open spec fn obeys_from_spec() -> bool { false }
+    open spec fn from_spec(e: io::Error) -> Self { arbitrary() }
+}
+impl From<io::Error> for SeError {
+    #[verifier::external_body]
+    fn from(e: io::Error) -> Self { unimplemented!() }
+}
+impl<W: crate::Write> crate::writer_::Writer<W> {
+//@extract writer::Writer::write_serializable | src/writer.rs :: impl<W: Write> Writer<W> :: fn write_serializable | serves=C13,C19 features=serialize
+//@rewrite use crate::se::{Indent, Serializer}; ==> 
+ pub fn write_serializable<T: Serialize>(
+        &mut self,
+        tag_name: &str,
+        content: &T,
+    ) -> (r: Result<(), SeError>)
+        requires old(self).inv()
+        // C13 / C19: the value is serialized by a root serializer over THIS writer's sink (through the io->fmt adapter), with the tag
+        // name validated as an XML name and the writer's own indentation state borrowed -- a serializer that satisfies its invariant
+        // (`Serialize::serialize` requires it); an illegal tag name is an error
+        ensures r is Ok ==> is_xml_name(tag_name@),
+    {
+        self.write_indent()?;
+        let mut fmt = ToFmtWrite(&mut self.writer);
+        let mut serializer = Serializer::with_root(&mut fmt, Some(tag_name))?;
+
+        if let Some(indent) = &mut self.indent {
+            serializer.set_indent(Indent::Borrow(indent));
+        }
+
+        content.serialize(serializer)?;
+
+        Ok(())
+    }
+//@end
+}
 }
